@@ -240,15 +240,19 @@ def order_item(o, prof, mode="min"):
 
 
 def cols_of(e, acc=None):
-    """base column references (alias, name) in an expression, including inside subqueries' own
-    projections only for ('scalar') - used for provenance."""
+    """base column references (alias, name) in an expression; nested queries are not entered (a scalar subquery's
+    contribution to provenance is added separately from its own projection)"""
     acc = set() if acc is None else acc
     if not isinstance(e, tuple):
         return acc
-    if e[0] == "col":
-        acc.add((e[1], e[2]))
-        return acc
-    for x in e[1:]:
+    if e and isinstance(e[0], str):
+        if e[0] == "col":
+            acc.add((e[1], e[2]))
+            return acc
+        rest = e[1:]
+    else:
+        rest = e   # a plain tuple such as (expr, desc, nulls) of an ORDER BY item or (cond, value) of a CASE branch
+    for x in rest:
         if isinstance(x, tuple):
             cols_of(x, acc)
         elif isinstance(x, list):
@@ -1149,3 +1153,38 @@ def _const_pair(e):
         return False
     names = [n for n in (_cmp_col_const(c) for c in _juncts(e, e[1])) if n]
     return len(names) != len(set(names))
+
+
+# ---------------------------------------------------------------------------------
+# presentation variants (C17): derived tables hoisted into CTEs
+# ---------------------------------------------------------------------------------
+
+
+def hoist_derived(q, prof="portable"):
+    """-> (main_sql, [(cte_name, cte_sql), ...]) with every derived table (and every WITH entry) of q turned into a
+    named query, inner ones first. main_sql has no WITH clause and refers to the names."""
+    import copy as _copy
+
+    q = _copy.deepcopy(q)
+    out = []
+
+    def process(query):
+        for name, cq, colnames in query.ctes:
+            process(cq)
+            body = cq.render(prof)
+            if colnames:
+                # a column list renames the outputs: express it with a wrapping select so that a plain name suffices
+                inner = ", ".join(f"{n} AS {c}" for (n, _, _), c in zip(cq.out, colnames))
+                body = f"SELECT {inner} FROM ({body}) AS _r"
+            out.append((name, body))
+        query.ctes = []
+        for src in [query.from_] + [j[1] for j in query.joins]:
+            if src is not None and src.kind == "derived":
+                process(src.query)
+                out.append((src.alias, src.query.render(prof)))
+                src.kind, src.name, src.query = "cte", src.alias, None
+        for _, b in query.setops:
+            process(b)
+
+    process(q)
+    return q.render(prof), out
